@@ -160,5 +160,9 @@ def run(chk, prog):
     # operation on the same object) -- the must-rewrite analysis decided under C18 R1; re-evaluated here
     from .common import reeval
     reeval(chk, prog, "C18", lambda i: i["rule"] == "R1", "R5", "R5-current-profile-only", 6)
+    # ---- RD: dimensional consistency of the quantities this property depends on (sa/dims.py) ----------------------------------------
+    from . import dimrules
+    nrd = dimrules.run(chk, prog, "RD")
+    chk.floor("RD-requirements", nrd or 0, 1)
     chk.notes.append("C07: non-negativity of spectrum and intensity by a sign lattice over the extracted expressions (assuming Re Z >= 0), "
                      "cutoff factor in [0,1), index pairing. NOT decided: the Parseval equality with the wake-loss sum.")
